@@ -10,7 +10,7 @@
    byte order (hence duplicate-free).  [bltb start x] = start < x.  [wire] is what an
    error turns into when it crosses HTTP (arbitrary function; property C07 owns it). *)
 From Coq Require Import String.
-From OCI Require Import Model.Listing Model.ListingSpec Proofs.Seq Proofs.Listing Proofs.ListingStack.
+From OCI Require Import Model.Listing Model.ListingSpec Model.ListingLegacy Proofs.Seq Proofs.Listing Proofs.ListingStack.
 
 (* ------------------------------------------------------------------ the iterator protocol *)
 
@@ -267,6 +267,22 @@ Proof.
   intros r. rewrite strip_all_In. now rewrite <- app_assoc.
 Qed.
 Print Assumptions C05_sub_strip.
+
+(* Before the repair (Model/ListingLegacy.v: the start point handed to the wrapped registry
+   unprefixed) the statement above was false: Sub(r,"a") over {a/b, a/c, b}, listed from "b",
+   delivered nothing although c lies after b (corpus/C05/sub_start_point.json). *)
+Theorem C05_sub_strip_legacy_refuted :
+  exists (prefix : bytes) (l : list bytes) (backend : bytes -> Seq err bytes) (start : bytes),
+    ssorted l /\ (forall st, represents (backend st) (filter (bltb st) l) None) /\ (~ In (prefix ++ slash) l) /\
+    ~ represents (legacy_sub_Repositories prefix backend start)
+                 (filter (bltb start) (strip_all (prefix ++ slash) l)) None.
+Proof.
+  exists (s "a"), [s "a/b"; s "a/c"; s "b"], (fun st => seq_of (filter (bltb st) [s "a/b"; s "a/c"; s "b"]) None), (s "b").
+  split; [apply ascending_spec; reflexivity|]. split; [intros st; apply represents_seq_of|].
+  split; [cbn; intuition discriminate|].
+  intros H. apply All_represents in H. vm_compute in H. discriminate.
+Qed.
+Print Assumptions C05_sub_strip_legacy_refuted.
 
 (* ------------------------------------------------------------------ ocidebug *)
 
